@@ -10,6 +10,7 @@ fn spec_b() -> FileSpec {
 #[kani::proof]
 #[kani::unwind(24)]
 #[kani::stub(verif_support::reexp::catch_unwind, verif_support::stub_cu)]
+#[kani::stub(crate::parameters::file_spec::TimestampCfg::get_timestamp, crate::parameters::file_spec::verif_harness::cut_get_timestamp)]
 fn c10_ts_infix_short_name() {
     vs::link_all();
     let spec = spec_b();
@@ -26,6 +27,7 @@ fn c10_ts_infix_short_name() {
 #[kani::proof]
 #[kani::unwind(40)]
 #[kani::stub(verif_support::reexp::catch_unwind, verif_support::stub_cu)]
+#[kani::stub(crate::parameters::file_spec::TimestampCfg::get_timestamp, crate::parameters::file_spec::verif_harness::cut_get_timestamp)]
 fn c06_ts_infix_member() {
     vs::link_all();
     let spec = spec_b();
